@@ -34,4 +34,43 @@ def run(ctx):
                        dict(protocol=p['name'], frame=frame, list_result=str(outs[0]), tuple_result=str(outs[1])))
 
 
+    # the public entry point on a fresh dispatcher, one protocol enabled: whatever that protocol's own decoder accepts (the shortest
+    # frames an encoder can produce included: all-minimum / all-maximum parameters) is reported, with the same identity
+    import gen_inputs
+    import vlib
+    for p in ps:
+        seen = set()
+        for a in gen_inputs.param_assignments(p, rng, 2)[:2] + gen_inputs.param_assignments(p, rng, 2)[-1:]:
+            c, e = engine.fresh_encode(p, a)
+            if c is None or not c.normalized_rlc:
+                continue
+            frame = list(c.normalized_rlc[0])
+            if tuple(frame) in seen:
+                continue
+            seen.add(tuple(frame))
+            with engine.class_guard(p['cls']):
+                try:
+                    own = d.code_key(p['cls']().decode(list(frame), p['frequency']))
+                except Exception:  # noqa
+                    own = None
+            vlib.drain_workers()
+            if own is None:
+                continue
+            d.reset()
+            d.set_enabled({p['name']})
+            try:
+                c2 = d.mod.decode(list(frame), p['frequency'])
+                got = None if c2 is None else d.code_key(c2)
+            except Exception as ex:  # noqa
+                got = 'raises ' + type(ex).__name__
+            d.reset()
+            ctx.count_eval(key=('public', p['name'], tuple(frame[:10]), len(frame)))
+            if got is None:
+                ctx.report('dispatcher', 'new key not reported', dict(protocol=p['name'], pre_held=False),
+                           dict(protocol=p['name'], params=a, frame=frame, own_decoder=str(own), public_decode=None, sequence=None))
+            elif got != own:
+                ctx.report('dispatcher', 'returned code differs from the protocol decoder', dict(protocol=p['name']),
+                           dict(protocol=p['name'], params=a, frame=frame, own_decoder=str(own), public_decode=str(got), sequence=None))
+
+
 replay = c10.replay
